@@ -294,7 +294,7 @@ func c17Decision(q *gojq.Query) string {
 }
 
 func c17OptEval(m *c17Model) {
-	ru := m.r.Rule("C17.modes", "jq-compatible modes: _opt_eval derives join_string (\"\" for -j, NUL for --raw-output0), raw_string, color, expr / filenames / null_input from the positional arguments ($rest[0] is the program unless -f, the rest are files, none = stdin); _main selects the input query (null / inputs / [inputs]) and layers defaults < flags < -o options < derived", 17)
+	ru := m.r.Rule("C17.modes", "jq-compatible modes: _opt_eval derives join_string (\"\" for -j, NUL for --raw-output0), raw_string, color, expr / filenames / null_input from the positional arguments ($rest[0] is the program unless -f, the rest are files, none = stdin); _main selects the input query (null / inputs / [inputs]) and layers defaults < flags < -o options < derived; usage + exit 2 only when nothing was asked for and stdin/stdout are terminals; every pair option (--arg/--argjson/--raw-file/--argdecode) reaches the program variables as NAME -> VALUE and conversions act on the VALUE position; -U/-V derivations; -o KEY=@PATH; -o conversion table agrees with the declared option types", 40)
 	d := m.def(ru, "_opt_eval", 1)
 	if d == nil {
 		return
@@ -492,4 +492,5 @@ func c17OptEval(m *c17Model) {
 		sort.Strings(bad)
 		ru.Check(len(bad) == 0, "defaults:modes", c17Pos(fd), "mode options default to jq's defaults", "default of a mode option changed: "+strings.Join(bad, ", "))
 	}
+	c17ModesMore(m, ru, md, d, f, OP)
 }
